@@ -37,6 +37,20 @@ Theorem C04_resume_pushes_cache :
 Proof. exact resume_pushes_cache. Qed.
 Print Assumptions C04_resume_pushes_cache.
 
+(* ... hence, end to end: after ANY schedule that leaves the engine paused, resume() pushes exactly the message list
+   computed by the trace specification *)
+Theorem C04_resume_replays_trace_spec :
+  forall (P : Type) (presume : P -> input -> outcome P) (plan_of : nat -> P) (D : Type) (dev : D -> nat -> devmeth -> D * devres)
+         (d : D) (paus stag : list nat) (rec : bool) (evs : list event) (l : list msg) (s' : st P D) (o : list obs),
+    let s := fst (run P presume plan_of D dev (init P D d paus stag rec) evs) in
+    state P D s = Paused ->
+    mcache (mon_run mon0 (trace P presume plan_of D dev (init P D d paus stag rec) evs)) = Some l ->
+    step P presume plan_of D dev s (EvMain AResume) = (s', o) ->
+    plans P D s' = FList l :: plans P D s /\ resps P D s' = RVal VNone :: resps P D s /\ cache P D s' = Some [] /\
+    rewindable P D s' = rewindable P D s /\ state P D s' = Paused.
+Proof. exact resume_replays_trace_spec. Qed.
+Print Assumptions C04_resume_replays_trace_spec.
+
 (* _start_suspender: exactly the cached messages are captured by the helper plan *)
 Theorem C04_suspender_pushes_cache :
   forall (P : Type) (plan_of : nat -> P) (D : Type) (dev : D -> nat -> devmeth -> D * devres)
